@@ -702,7 +702,7 @@ func (ctx Ctx) integerConversion(s ast.Node, x ast.Expr, width int) coq.Expr {
 }
 
 func (ctx Ctx) copyExpr(n ast.Node, dst ast.Expr, src ast.Expr) coq.Expr {
-	e := sliceElem(ctx.typeOf(dst))
+	e := ctx.sliceElem(dst, ctx.typeOf(dst))
 	return coq.NewCallExpr(coq.GallinaIdent("SliceCopy"),
 		ctx.coqTypeOfType(n, e),
 		ctx.expr(dst), ctx.expr(src))
@@ -738,7 +738,7 @@ func (ctx Ctx) callExpr(s *ast.CallExpr) coq.Expr {
 			ctx.unsupported(s, "append with %d arguments", len(s.Args))
 			return nil
 		}
-		elemTy := sliceElem(ctx.typeOf(s.Args[0]).Underlying())
+		elemTy := ctx.sliceElem(s.Args[0], ctx.typeOf(s.Args[0]).Underlying())
 		if s.Ellipsis == token.NoPos {
 			return coq.NewCallExpr(coq.GallinaIdent("SliceAppend"),
 				ctx.coqTypeOfType(s, elemTy),
@@ -1010,7 +1010,7 @@ func (ctx Ctx) sliceExpr(e *ast.SliceExpr) coq.Expr {
 	x := ctx.expr(e.X)
 	if e.Low != nil && e.High == nil {
 		return coq.NewCallExpr(coq.GallinaIdent("SliceSkip"),
-			ctx.coqTypeOfType(e, sliceElem(ctx.typeOf(e.X))),
+			ctx.coqTypeOfType(e, ctx.sliceElem(e.X, ctx.typeOf(e.X))),
 			x, ctx.expr(e.Low))
 	}
 	if e.Low == nil && e.High != nil {
@@ -1019,7 +1019,7 @@ func (ctx Ctx) sliceExpr(e *ast.SliceExpr) coq.Expr {
 	}
 	if e.Low != nil && e.High != nil {
 		return coq.NewCallExpr(coq.GallinaIdent("SliceSubslice"),
-			ctx.coqTypeOfType(e, sliceElem(ctx.typeOf(e.X))),
+			ctx.coqTypeOfType(e, ctx.sliceElem(e.X, ctx.typeOf(e.X))),
 			x, ctx.expr(e.Low), ctx.expr(e.High))
 	}
 	if e.Low == nil && e.High == nil {
@@ -1181,7 +1181,7 @@ func (ctx Ctx) derefExpr(e ast.Expr) coq.Expr {
 	}
 	return coq.DerefExpr{
 		X:  ctx.expr(e),
-		Ty: ctx.coqTypeOfType(e, ptrElem(ctx.typeOf(e))),
+		Ty: ctx.coqTypeOfType(e, ctx.ptrElem(e, ctx.typeOf(e))),
 	}
 }
 
@@ -1500,7 +1500,7 @@ func (ctx Ctx) sliceRangeStmt(s *ast.RangeStmt) coq.Expr {
 		Key:   ctx.identBinder(key),
 		Val:   ctx.identBinder(val),
 		Slice: ctx.expr(s.X),
-		Ty:    ctx.coqTypeOfType(s.X, sliceElem(ctx.typeOf(s.X).Underlying())),
+		Ty:    ctx.coqTypeOfType(s.X, ctx.sliceElem(s.X, ctx.typeOf(s.X).Underlying())),
 		Body:  ctx.blockStmt(s.Body, ExprValLocal),
 	}
 }
